@@ -647,6 +647,10 @@ func importTables(c *Ctx) {
 		ok, all := distinctQualifiers(w)
 		return ok && len(importsOf(w).Keys) == 3, "two packages whose whole paths sanitise to the same name (the second is numbered, the first keeps its name), then a third package of that name: " + all + "; want three imports with pairwise distinct qualifiers (the one that kept its name must still be seen as holding it)"
 	})
+	scenario("numbered-name-already-held", []importSpec{{"dmfoobar2", false, "dm/other"}}, "", []step{{"dm/other", "other"}, {"dm/foo-bar", "foobar"}, {"dm/foobar", "foobar"}}, func(w *regWorld, r []interp.Value) (bool, string) {
+		ok, all := distinctQualifiers(w)
+		return ok && len(importsOf(w).Keys) == 3, "a package the source imports as dmfoobar2, then two packages whose whole paths sanitise to dmfoobar: " + all + "; want three imports with pairwise distinct qualifiers (a number is given only after the numbered name was searched for and found free)"
+	})
 	// names made from path components are import aliases: identifiers, and no predeclared names (D18)
 	scenario("alias-from-a-digit-led-directory", nil, "", []step{{"example.com/m/x/2ka", "ka"}, {"example.com/m/x/3ka", "ka"}}, func(w *regWorld, r []interp.Value) (bool, string) {
 		ok, all := distinctQualifiers(w)
@@ -661,7 +665,7 @@ func importTables(c *Ctx) {
 		return ok && len(importsOf(w).Keys) == 2, "two packages named kn in directories string and sub: " + all + "; want two distinct qualifiers, none a predeclared identifier (an import named string makes every `string` of the file a package name)"
 	})
 	searchLiveTable(c)
-	run.Floor("G-IMPORT/table", 12)
+	run.Floor("G-IMPORT/table", 13)
 }
 
 // searchLiveTable: the qualifier search sees an import under the qualifier it has now.
